@@ -112,6 +112,10 @@ class _Recorder:
         self.events = []
 
 
+FN_TRAIT_CALLS = ("core::ops::function::Fn::call", "core::ops::function::FnMut::call_mut",
+                  "core::ops::function::FnOnce::call_once")
+
+
 class Interp:
     def __init__(self, program, externs=None, max_depth=MAX_DEPTH, skip_log=True):
         self.p = program
@@ -873,6 +877,10 @@ class Interp:
         if ov is not None:
             return ov(self, st, depth, callee, args, body, ln)
         target = self.p.bodies.get(res)
+        if (target is not None and target.kind == "Closure" and dfn in FN_TRAIT_CALLS and len(args) == 2
+                and isinstance(args[1], Agg)):
+            # <closure as Fn<(A,..)>>::call(&closure, (a,..)) resolved to the closure body: untuple
+            args = [args[0]] + list(args[1].f)
         if target is not None and callee.get("ik") in (None, "Item", "ClosureOnceShim", "FnPtrShim", "ReifyShim"):
             if len(self.stack) >= self.max_depth or res in self.stack:
                 self.ev("recursion_or_depth", body, ln, res)
